@@ -6,6 +6,7 @@ import (
 	"fmt"
 	"os"
 	"strings"
+	"time"
 
 	"verif/harness/dag"
 	"verif/harness/ev"
@@ -325,9 +326,12 @@ func compareWithRef(evs []dag.Ev, n int) (prefixes, skipped, decisions int, diff
 // RefItem / RefResult: one DAG for the reference vote count.
 type RefItem struct {
 	Source string `json:"src"`
+	Dyn    bool   `json:"dyn,omitempty"` // validator set changes: compareWithRefDyn
+	Prop   string `json:"prop,omitempty"`
 }
 type RefResult struct {
 	Prefixes, Skipped, Decisions, Events int
+	Spanning                             int // (dyn) decisions whose election ran across a validator-set change
 	Diff                                 string
 	Viol                                 []ev.Violation `json:"viol"` // for --replay
 }
@@ -340,11 +344,15 @@ func init() {
 		}
 		evs, n := loadDagSource(it.Source)
 		res := RefResult{Events: len(evs)}
-		if evs != nil {
+		prop := "C19"
+		if evs != nil && it.Dyn {
+			prop = "C10"
+			res.Prefixes, res.Decisions, res.Spanning, res.Diff = compareWithRefDyn(evs, n)
+		} else if evs != nil {
 			res.Prefixes, res.Skipped, res.Decisions, res.Diff = compareWithRef(evs, n)
 		}
 		if res.Diff != "" {
-			res.Viol = []ev.Violation{{Property: "C19", Key: "vote-count:" + it.Source, What: res.Diff}}
+			res.Viol = []ev.Violation{{Property: prop, Key: "vote-count:" + it.Source, What: res.Diff}}
 		}
 		return json.Marshal(res)
 	})
@@ -354,6 +362,227 @@ func init() {
 			evs, n := loadDagSource(src)
 			p, s, d, diff := compareWithRef(evs, n)
 			fmt.Printf("%s: n=%d events=%d prefixes=%d skipped=%d decisions compared=%d %s\n", src, n, len(evs), p, s, d, diff)
+		}
+		return 0
+	}
+}
+
+// compareWithRefDyn is the vote count for DAGs whose validator set changes. Rounds, witnesses and the validator-set
+// table are read from the implementation (C10 judges the table against the delivered blocks); what is re-derived is
+// every fame decision: votes of round i+1 = sees; a later round-j witness collects the votes of the round-(j-1)
+// witnesses it strongly sees *over the validator set of round j-1*, and decides (or, every fourth round, keeps its
+// vote) with more than two thirds of the validator set of round j. Each decision is re-derived when the
+// implementation first reports it and once more on the final state (a validator set that became known later must not
+// have changed the count of an earlier round).
+func compareWithRefDyn(evs []dag.Ev, n int) (prefixes, decisions, spanning int, diff string) {
+	inst := dag.Open(n, false, "", 10000)
+	defer inst.Close()
+	store := inst.N.Store
+	pos := map[string]int{}
+	for i, e := range evs {
+		pos[e.Hex] = i
+	}
+	closedAt := map[int]int{}
+	late := map[string]bool{}
+	reported := map[string]int{}
+	view := func() map[int]roundView {
+		rv := map[int]roundView{}
+		for rd := 0; rd <= store.LastRound(); rd++ {
+			ri, err := store.GetRound(rd)
+			if err != nil {
+				continue
+			}
+			v := roundView{}
+			for hx, w := range ri.VCreated() {
+				if w {
+					v.wits = append(v.wits, hx)
+				}
+			}
+			if ps, err := store.GetPeerSet(rd); err == nil {
+				v.size = ps.Len()
+			}
+			rv[rd] = v
+		}
+		return rv
+	}
+	// election of witness x of round i on the current state: 0 open, 1 famous, 2 not famous
+	election := func(rv map[int]roundView, x string, i int) (res int, spans bool) {
+		votes := map[string]bool{}
+		last := store.LastRound()
+		for j := i + 1; j <= last; j++ {
+			sm := 2*rv[j].size/3 + 1
+			if rv[j].size != rv[j-1].size {
+				spans = true
+			}
+			for _, y := range rv[j].wits {
+				if late[y] {
+					continue
+				}
+				if j-i == 1 {
+					v, _ := inst.H.VSee(y, x)
+					votes[y] = v
+					continue
+				}
+				yays, nays := 0, 0
+				for _, w := range rv[j-1].wits {
+					if late[w] {
+						continue
+					}
+					if ss, _ := inst.H.VStronglySee(y, w, j-1); ss {
+						if votes[w] {
+							yays++
+						} else {
+							nays++
+						}
+					}
+				}
+				v, t := false, nays
+				if yays >= nays {
+					v, t = true, yays
+				}
+				if (j-i)%4 > 0 {
+					if t >= sm {
+						if v {
+							return 1, spans
+						}
+						return 2, spans
+					}
+					votes[y] = v
+				} else if t >= sm {
+					votes[y] = v
+				} else {
+					votes[y] = middleBitOf(y)
+				}
+			}
+		}
+		return 0, spans
+	}
+	judge := func(L int, when string) string {
+		rv := view()
+		for rd := 0; rd <= store.LastRound(); rd++ {
+			ri, err := store.GetRound(rd)
+			if err != nil {
+				continue
+			}
+			for hx, f := range ri.VFame() {
+				if f == 0 || late[hx] {
+					continue
+				}
+				if when == "first" {
+					if _, seen := reported[hx]; seen {
+						continue
+					}
+					reported[hx] = f
+				}
+				rf, sp := election(rv, hx, rd)
+				decisions++
+				if sp {
+					spanning++
+				}
+				if rf != f {
+					what := "the election is still open"
+					if rf != 0 {
+						what = fmt.Sprintf("the count gives %v", rf == 1)
+					}
+					return fmt.Sprintf("after %d of %d events (%s) the hashgraph has decided the fame of witness %s (round %d) as %v; counting the votes of strongly seen witnesses, each round over its own validator set (sizes by round: %s), %s", L, len(evs), when, hx[:10], rd, f == 1, sizesOf(rv), what)
+				}
+			}
+		}
+		return ""
+	}
+	L := 0
+	for L = 1; L <= len(evs); L++ {
+		if err, _ := inst.Insert(evs[L-1].Fresh()); err != nil {
+			break
+		}
+		prefixes++
+		for rd := 0; rd <= store.LastRound(); rd++ {
+			ri, err := store.GetRound(rd)
+			if err != nil {
+				continue
+			}
+			if c, closed := closedAt[rd]; closed {
+				for hx, w := range ri.VCreated() {
+					if w && pos[hx] >= c {
+						late[hx] = true
+					}
+				}
+			} else if ri.VDecided() {
+				closedAt[rd] = L
+			}
+		}
+		if d := judge(L, "first"); d != "" {
+			return prefixes, decisions, spanning, d
+		}
+	}
+	return prefixes, decisions, spanning, judge(L-1, "final state")
+}
+
+type roundView struct {
+	wits []string
+	size int
+}
+
+func sizesOf(rv map[int]roundView) string {
+	out := ""
+	for r := 0; r < len(rv)+8; r++ {
+		if v, ok := rv[r]; ok {
+			out += fmt.Sprintf("%d:%d ", r, v.size)
+		}
+	}
+	return strings.TrimSpace(out)
+}
+
+// refDynPre is C10's vote-count part: DAGs with joins and leaves.
+func refDynPre(th bool) func(deadline time.Time) ([]ev.Violation, map[string]interface{}) {
+	return func(deadline time.Time) ([]ev.Violation, map[string]interface{}) {
+		srcs := []string{"harvest:" + scLeave4, "harvest:" + scJoin3, "harvest:" + scJoin2, "harvest:" + scTwoLeaves, "harvest:" + scJoinLeave, "harvest:" + scRejoin4, "harvest:" + scRefused3, "harvest:" + scUnknownItx}
+		k1, k2 := 12, 8
+		if th {
+			k1, k2 = 48, 32
+		}
+		for k := 0; k < k1; k++ {
+			srcs = append(srcs, fmt.Sprintf("harvest:irregular:5:%d:200:1", k), fmt.Sprintf("harvest:irregular:7:%d:200:1", k))
+		}
+		for k := 0; k < k2; k++ {
+			srcs = append(srcs, fmt.Sprintf("harvest:irregular:4:%d:200:3", k), fmt.Sprintf("harvest:irregular:6:%d:200:1", k), fmt.Sprintf("harvest:irregular:3:%d:150:2", k), fmt.Sprintf("harvest:irregular:4:%d:200:1", k))
+		}
+		if th {
+			for k := 0; k < 32; k++ {
+				srcs = append(srcs, fmt.Sprintf("harvest:irregular:2:%d:150:2", k), fmt.Sprintf("harvest:irregular:5:%d:200:3", k), fmt.Sprintf("harvest:irregular:4:%d:200:2", k))
+			}
+		}
+		raw := make([]json.RawMessage, len(srcs))
+		for i, s := range srcs {
+			raw[i], _ = json.Marshal(RefItem{Source: s, Dyn: true})
+		}
+		pool := explore.Pool{Mode: "refvote", Deadline: deadline}
+		tot := RefResult{}
+		var viol []ev.Violation
+		pool.Run(raw, func(r explore.PoolResult) {
+			if r.Crashed != "" || r.Err != "" {
+				ev.Fail("vote count: item %s failed in the harness: %s%s", string(raw[r.Index]), r.Crashed, r.Err)
+			}
+			var res RefResult
+			json.Unmarshal(r.Res, &res)
+			tot.Prefixes += res.Prefixes
+			tot.Decisions += res.Decisions
+			tot.Spanning += res.Spanning
+			tot.Events += res.Events
+			if res.Diff != "" {
+				viol = append(viol, ev.Violation{Property: "C10", Key: "vote-count:" + srcs[r.Index], What: srcs[r.Index] + ": " + res.Diff, Replay: map[string]interface{}{"worker_mode": "refvote", "item": json.RawMessage(raw[r.Index])}})
+			}
+		})
+		return viol, map[string]interface{}{"vote_count_over_each_rounds_own_set": map[string]interface{}{"dags": len(srcs), "events": tot.Events, "prefixes": tot.Prefixes, "fame_decisions_rederived": tot.Decisions, "of_which_elections_across_a_set_change": tot.Spanning}}
+	}
+}
+
+func init() {
+	checks["dbgrefdyn"] = func(args []string) int {
+		for _, src := range args {
+			evs, n := loadDagSource(src)
+			p, d, sp, diff := compareWithRefDyn(evs, n)
+			fmt.Printf("%s: n=%d events=%d prefixes=%d decisions=%d spanning-a-set-change=%d %s\n", src, n, len(evs), p, d, sp, diff)
 		}
 		return 0
 	}
